@@ -1,14 +1,30 @@
 #!/bin/bash
-# Applies a seeded change to /repo, runs the given checks (quick tier), reverts.
+# Runs checks (quick tier) against a seeded change WITHOUT touching /repo or /verif's
+# evidence: the patch is applied to a scratch worktree of /repo (VERIF_REPO points the
+# checks at it) and the checks run from a scratch copy of /verif; both are removed.
 # usage: tools_run_seeded.sh <seeded dir> <ID>...
-d=$1; shift
-cd /verif
-git -C /repo diff --quiet || { echo "repo dirty"; exit 9; }
-git -C /repo apply "$(realpath $d)/patch.diff" || { echo "patch does not apply"; exit 8; }
+export GOFLAGS=-mod=mod GOPROXY=off GOSUMDB=off GOTOOLCHAIN=local
+d=$(realpath $1); shift
+n=$(basename $d)
+wt=/tmp/seedrun/$n.repo
+vd=/tmp/seedrun/$n.verif
+mkdir -p /tmp/seedrun
+git -C /repo worktree remove --force $wt >/dev/null 2>&1
+rm -rf $wt $vd
+git -C /repo worktree prune
+git -C /repo worktree add -q --detach $wt HEAD || { echo "$n: worktree failed"; exit 9; }
+if ! git -C $wt apply "$d/patch.diff"; then
+  echo "$n patch does not apply"
+  git -C /repo worktree remove --force $wt; exit 8
+fi
+mkdir -p $vd
+rsync -a --exclude .git --exclude seeded --exclude replays --exclude evidence /verif/ $vd/
+mkdir -p $vd/evidence $vd/replays
 for id in "$@"; do
-  out=$(timeout 1500 ./bin/verif check $id 2>&1); rc=$?
+  out=$(cd $vd && VERIF_REPO=$wt timeout 1500 ./bin/verif check $id 2>&1); rc=$?
   sig=$(echo "$out" | grep -m3 "signature=" | sed 's/^ *//' | cut -c1-220 | tr '\n' ';')
-  echo "$(basename $d) $id exit=$rc $sig"
+  [ $rc = 2 ] && echo "$out" | grep -m2 "trouble" | cut -c1-600
+  echo "$n $id exit=$rc $sig"
 done
-git -C /repo checkout -- .
-find /verif/replays -name '*.json' -delete
+git -C /repo worktree remove --force $wt
+rm -rf $vd
